@@ -100,7 +100,7 @@ def _channel(ctx, binary):
     sends = [e for e in events if e["ev"] == "send"]
     info = {"runs": runs + runs2, "messages_sent": len(sends), "messages_received": sum(1 for e in events if e["ev"] == "recv"),
             "multi_segment_messages": sum(1 for e in sends if e["nseg"] > 1),
-            "exactly_k_segments_boundary": sum(1 for e in sends if e["len"] % 65535 in (0, 1, 2, 65533, 65534)),
+            "within_2_bytes_of_a_segment_boundary": sum(1 for e in sends if e["len"] > 60000 and e["len"] % 65535 in (0, 1, 2, 65533, 65534)),
             "max_segments": max([e["nseg"] for e in sends] or [0]),
             "message_types": sorted(set("%s:%s" % (e.get("mp", "network2"), e["kind"]) for e in sends))}
     ctx.sample({"channel_events": [e for e in events if e["ev"] in ("send", "recv") and e["len"] > 65535][:2]})
